@@ -561,6 +561,13 @@ func checkToHops(c *Ctx) {
 			sameIP := ipf != nil && ipf.Has(func(x *core.Term) bool { return x.Op == "field" && x.Name == "IP" && x.Args[0].Key() == probe.Key() })
 			sameD := isd != nil && isd.Op == "field" && isd.Name == "IsDest" && isd.Args[0].Key() == probe.Key()
 			R.Check(sameIP && sameD, "R05.4", key+"/same-probe", pos, fn, "address, RTT and IsDest all come from the same probe", fmt.Sprintf("address/IsDest come from a different value than RTT: ip=%v isDest=%v", ipf, isd))
+			// the address bytes are the address itself: AsSlice gives 4 or 16 bytes; MarshalBinary appends the zone, MarshalText /
+			// String give text - a value that is marked reachable but is not an address and does not serialise
+			if sameIP {
+				conv := ipf.StripConv()
+				okBytes := conv.Op == "call" && (conv.Name == "(netip.Addr).AsSlice" || conv.Name == "(netip.Addr).As4" || conv.Name == "(netip.Addr).As16") || conv.Op == "slice" && strings.Contains(conv.String(), "(netip.Addr).As")
+				R.Check(okBytes, "R05.4", key+"/address-bytes", pos, fn, "hop address = probe.IP.AsSlice()", "the hop's address is built as "+ipf.String()+", not with AsSlice of the probe's address: other conversions (MarshalBinary with its zone suffix, text forms) yield bytes that are not an address, so the hop is marked reachable without one and the document fails to serialise")
+			}
 			okMs := rtt.Op == "binop" && rtt.Name == "*" && strings.Contains(rtt.String(), ".Seconds(") && rtt.Args[1].IsConst("1000")
 			R.Check(okMs, "R05.4", key+"/ms", pos, fn, "RTT converted with Seconds()*1000", "RTT conversion is "+rtt.String())
 		}
